@@ -5,7 +5,7 @@ import ast
 from typing import List, Optional
 
 from ..collect import Path, callee_is, run_paths
-from ..common import calls_in, construct, where
+from ..common import calls_in, construct, norm_guards, where, with_helpers
 from ..flow import NONE, Value, contains, show, subterms
 from ..loader import AnalysisError, ClassInfo, FuncInfo, Program, walk_shallow
 from ..report import Report
@@ -155,54 +155,87 @@ def run(p: Program, rep: Report, tier: str) -> None:
             cls = p.cls(f"baize.{side}.staticfiles:{cname}")
             call = p.find_method(cls, "__call__")
             want = {"wsgi": ("HTTP_IF_NONE_MATCH", "HTTP_IF_MODIFIED_SINCE"), "asgi": (b"if-none-match", b"if-modified-since")}[side]
-            consts = [n.value for n in ast.walk(call.node) if isinstance(n, ast.Constant)]
+            unit = with_helpers(p, call)
+            consts = [n.value for f_ in unit for n in ast.walk(f_.node) if isinstance(n, ast.Constant)]
             if all(w in consts for w in want):
                 rep.ok("R14.1", f"{side} {cname}: reads If-None-Match and If-Modified-Since")
             else:
                 rep.violation("R14.1", construct(call, text="validator headers"), where(call), f"{side} {cname}.__call__ does not read both If-None-Match and If-Modified-Since")
 
-            # ... and hands them to file_response unmodified: every definition of the two variables passed as validators is either
-            # the header read itself or the initial default that precedes it; a later overwrite (e.g. blanking them for some
-            # configuration) means an unchanged file never revalidates
-            frc = [c for c in calls_in(call, deep=True) if isinstance(c.func, ast.Attribute) and c.func.attr == "file_response"]
-            for c in frc:
-                for pos, what in ((2, "If-None-Match"), (3, "If-Modified-Since")):
-                    if len(c.args) <= pos:
-                        rep.violation("R14.1", construct(call, text=f"file_response without the {what} value"), where(call, c), f"{side} {cname}: file_response is not given the {what} header value")
-                        continue
-                    a = c.args[pos]
-                    if not isinstance(a, ast.Name):
-                        hdr = _header_derived(a, call, side)
-                        if hdr:
-                            rep.ok("R14.1", f"{side} {cname}: {what} is read in the file_response call itself")
+            # ... and hands them to file_response unmodified.
+            # (a) on the paths of __call__ (private helpers inlined) the two validator arguments of file_response are the header
+            #     read itself - WSGI: environ.get(KEY, "") ; ASGI: the decoded value of a scope['headers'] pair, or the "" default
+            cpaths, ccol, _cit = run_paths(p, call, cls)
+            rep.cfg_paths += len(cpaths)
+            gate = ("param", call.params[1]) if len(call.params) > 1 else ("param", "environ" if side == "wsgi" else "scope")
+            n_frc = 0
+            for pos, what, key in ((2, "If-None-Match", want[0]), (3, "If-Modified-Since", want[1])):
+                seen_read = False
+                bad_arg = None
+                for pa in cpaths:
+                    for e in pa.events:
+                        if not (e.kind == "call" and callee_is(e.a, "file_response")):
+                            continue
+                        n_frc += 1
+                        if len(e.b) <= pos:
+                            bad_arg = (e, None)
+                            continue
+                        a = e.b[pos]
+                        if side == "wsgi":
+                            okr = a[0] == "call" and a[1] == ("attr", gate, "get") and a[2] and a[2][0] == ("const", key) and (len(a[2]) == 1 or a[2][1] == ("const", ""))
+                            okr = okr or (a[0] == "sub" and a[1] == gate and a[2] == ("const", key))
+                            if okr:
+                                seen_read = True
+                            else:
+                                bad_arg = (e, a)
                         else:
-                            rep.violation("R14.1", construct(call, text=f"{what} argument {ast.unparse(a)[:50]}"), where(call, c), f"{side} {cname}: the {what} value handed to file_response is not the request header")
-                        continue
-                    defs = []
-                    for n in ast.walk(call.node):
-                        if isinstance(n, ast.Assign):
-                            for t in n.targets:
-                                for x in ast.walk(t):
-                                    if isinstance(x, ast.Name) and x.id == a.id:
-                                        defs.append((n.lineno, n.value, n))
-                        elif isinstance(n, (ast.AnnAssign, ast.AugAssign)) and isinstance(n.target, ast.Name) and n.target.id == a.id and n.value is not None:
-                            defs.append((n.lineno, n.value, n))
-                        elif isinstance(n, ast.NamedExpr) and n.target.id == a.id:
-                            defs.append((n.lineno, n.value, n))
-                    defs.sort(key=lambda d: d[0])
-                    first_hdr = next((ln_ for ln_, v, n in defs if _header_derived(v, call, side)), None)
-                    bad = [(ln_, v, n) for ln_, v, n in defs if not _header_derived(v, call, side) and not (isinstance(v, ast.Constant) and v.value == "" and (first_hdr is None or ln_ < first_hdr))]
-                    if first_hdr is None:
-                        rep.violation("R14.1", construct(call, text=f"{what} never read"), where(call, c), f"{side} {cname}: the {what} value handed to file_response is never read from the request")
-                    elif bad:
-                        ln_, v, n = bad[0]
-                        rep.violation("R14.1", construct(call, text=f"{what} overwritten: {' '.join(ast.unparse(n).split())[:70]}"), where(call, n),
-                                      f"{side} {cname}: the {what} value read from the request is overwritten before it reaches file_response: a request carrying the validators of an unchanged file is "
-                                      "answered with a full 200 instead of 304")
+                            reads = any(t[0] == "elem" and contains(t, gate) for t in subterms(a))
+                            if reads:
+                                seen_read = True
+                            elif a != ("const", ""):
+                                bad_arg = (e, a)
+                if bad_arg is not None:
+                    e, a = bad_arg
+                    node, _f = ccol.nodes.get(e.tag, (None, call))
+                    if a is None:
+                        rep.violation("R14.1", construct(call, text=f"file_response without the {what} value"), where(call, node), f"{side} {cname}: file_response is not given the {what} header value")
                     else:
-                        rep.ok("R14.1", f"{side} {cname}: the {what} value reaches file_response as read from the request ({len(defs)} definitions)")
-            if not frc:
+                        rep.violation("R14.1", construct(call, text=f"{what} argument {show(a)[:50]}"), where(call, node), f"{side} {cname}: the {what} value handed to file_response is not the request header")
+                elif not seen_read and n_frc:
+                    rep.violation("R14.1", construct(call, text=f"{what} never read"), where(call), f"{side} {cname}: the {what} value handed to file_response is never read from the request")
+                elif n_frc:
+                    rep.ok("R14.1", f"{side} {cname}: the {what} value reaches file_response as read from the request")
+            if not n_frc:
                 rep.undecide("R14.1", f"{side} {cname}.__call__: no file_response(...) call")
+            # (b) no later overwrite: a local that receives a header value anywhere in __call__ or its helpers has no other
+            #     definition than the "" default that precedes the read (blanking the validators for some configuration means an
+            #     unchanged file never revalidates; on the ASGI side the paths cannot tell a blanked value from an absent header)
+            for f_ in unit:
+                names_ = {}
+                for n in ast.walk(f_.node):
+                    tg_val = []
+                    if isinstance(n, ast.Assign):
+                        tg_val = [(x.id, n.value, n) for t in n.targets for x in ast.walk(t) if isinstance(x, ast.Name) and isinstance(x.ctx, ast.Store)]
+                    elif isinstance(n, (ast.AnnAssign, ast.AugAssign)) and isinstance(n.target, ast.Name) and n.value is not None:
+                        tg_val = [(n.target.id, n.value, n)]
+                    elif isinstance(n, ast.NamedExpr):
+                        tg_val = [(n.target.id, n.value, n)]
+                    for nm, v, st_ in tg_val:
+                        names_.setdefault(nm, []).append((st_.lineno, v, st_))
+                for nm, defs in names_.items():
+                    defs.sort(key=lambda d: d[0])
+                    first_hdr = next((ln_ for ln_, v, n in defs if _header_derived(v, f_, side)), None)
+                    if first_hdr is None:
+                        continue
+                    # only the validator values matter: the definition mentions one of the two header names, or sits under a test of one
+                    if not any(isinstance(x, ast.Constant) and x.value in want for ln_, v, n in defs for x in list(ast.walk(v)) + [y for g_, _p in norm_guards(n, f_.node) for y in ast.walk(g_)]):
+                        continue
+                    bad = [(ln_, v, n) for ln_, v, n in defs if not _header_derived(v, f_, side) and not (isinstance(v, ast.Constant) and v.value == "" and ln_ < first_hdr)]
+                    if bad:
+                        ln_, v, n = bad[0]
+                        rep.violation("R14.1", construct(call, text=f"validator overwritten: {' '.join(ast.unparse(n).split())[:70]}"), where(f_, n),
+                                      f"{side} {cname}: a validator value read from the request is overwritten before it reaches file_response: a request carrying the validators of an unchanged file is "
+                                      "answered with a full 200 instead of 304")
 
     # ---------------------------------------------------------------- R14.2 inside if_modified_since
     ims = base.methods.get("if_modified_since")
